@@ -13,7 +13,7 @@ import datetime, math, signal, itertools, logging
 from collections import Counter
 import numpy as np
 from .. import proto
-from ..proto import enc, hexs, unhex
+from ..proto import enc, hexs, unhex, key_name, name_key
 from ..engine import Finding, Timeout, with_timeout
 
 ID = 'C02'
@@ -49,6 +49,10 @@ KEYS = [None, 0, 1, 2, 3, 1.0, 2.0, 2.5, -0.25, 'a', 'b', '', D(2020, 1, 1), D(2
         datetime.date(2020, 1, 1), datetime.date(2020, 1, 2),   # a date is the datetime of its midnight (as_primitive); wire spelling DT:
         XNAN, np.int64(2), np.float64(1.0)]                     # numpy scalars (what a DataFrame column hands out)
 VALS = [None, 1, 2, 'p', 'q', 0.5]
+# column KEYS that are not strings: xyz / pivot make one column per y value (a float, None, a datetime), so two pivot results share such columns and are
+# joined on them.  On the wire and in the model the key is NAMED U+0000 + its atom (proto.key_name); the runner hands the implementation the real key.
+# None can only be reached by omitting lcols (lcols = None means "the shared columns").  1.0 / NaN keys left out (1.0 is the dict key 1, NaN goes by identity).
+COLKEYS = [1.5, 2.5, -0.25, D(2020, 1, 1), D(2021, 6, 30, 12)]
 
 
 def cell(v):
@@ -227,6 +231,19 @@ def gen_case(rng):
         else:
             y = []
         tag += '-nocolumns'
+    if rng.random() < 0.125 and (tag.startswith('keyed') or tag.startswith('common') or tag == 'renamed' or tag.startswith('callable-')):
+        # one call in eight: the key column `a` (both sides) / `k` (right side of `renamed`) has a KEY that is not a string - the shared column of two
+        # pivot results; lcols omitted, or the key itself (bare, in a list, in a tuple).  A formula names its argument: never the renamed column
+        fnargs = [s_[2] for s_ in (ls or []) + (rs or []) if not isinstance(s_, str) and len(s_) > 2]
+        pool = COLKEYS + ([None] if ls is None and rs is None else [])
+        ka, kk = rng.sample(pool, 2)
+        ren = {c: key_name(k_) for c, k_ in (('a', ka), ('k', kk)) if c not in fnargs and any(c == c2 for c2, _ in x + y)}
+        x = [(ren.get(c, c), v) for c, v in x]
+        y = [(ren.get(c, c), v) for c, v in y]
+        ls = None if ls is None else [ren.get(s_, s_) if isinstance(s_, str) else s_ for s_ in ls]
+        rs = None if rs is None else [ren.get(s_, s_) if isinstance(s_, str) else s_ for s_ in rs]
+        if ren:
+            tag = 'keyed-columns:' + tag
     sp = spelling(rng, ls, rs, op_ok=(ls is None and rs is None and mode in ('mN', 'mlS')))
     return op + '-' + tag, line(op, x, y, ls, rs, mode, sp)
 
@@ -317,7 +334,7 @@ def dec_specs(sx, spell):
     out = []
     for s in sx[1:]:
         if isinstance(s, str):
-            out.append(proto.dec_cell(s))
+            out.append(name_key(proto.dec_cell(s)))
         else:
             out.append(_mk_fn(s[1], proto.dec_cell(s[2]) if len(s) > 2 else None))
     if spell == 'b' and len(out) == 1:
@@ -339,7 +356,7 @@ def dec_mode(sx):
 
 def dec_table(sx):
     from pyg_base import dictable
-    d = proto.dec(sx)
+    d = {name_key(k): v for k, v in proto.dec(sx).items()}
     return dictable(d) if d else dictable()
 
 
@@ -373,7 +390,7 @@ def guarded(fn, seconds=2.0):
 
 
 def enc_dictable(d):
-    return '(D' + ''.join(' (%s %s)' % (hexs(k), enc(list(v))) for k, v in d.items()) + ')'
+    return '(D' + ''.join(' (%s %s)' % (hexs(key_name(k)), enc(list(v))) for k, v in d.items()) + ')'
 
 
 def call_impl(sx):
